@@ -97,6 +97,27 @@ CHECKS["C18"] = dict(
          "strictly increasing bijection on all 256 subsets of -3..4 and seeded large sets.",
     design="4 C18", technique="TLC-enumerated input domain replayed into the real parsers; TLC validation with the TLA+ reference reading")
 
+_PATHS = ("spec/Paths.tla states C12 literally (ValidPath) and builds the brute-force set AllPaths as the closure of one-hop paths "
+          "under extension. TLC proves, for every temporal graph of a bounded domain (3 nodes x 3-4 instants undirected, 3 nodes "
+          "directed, 2 nodes with self-loops) and every (u, v, window), that an implementation-shaped model of temporal_dag + "
+          "time_respecting_paths returns exactly AllPaths, then dumps the graphs; each is built on the real class and every "
+          "query of the real algorithms is judged by TLC against the observed presence relation")
+CHECKS["C12"] = dict(text=_PATHS + ": every returned path satisfies ValidPath, is a non-empty tuple keyed (first,last), no duplicates.",
+                     design="4 C12/C13", technique="TLC-enumerated graph domain replayed into the real algorithms; TLC validation against the declarative TLA+ path set")
+CHECKS["C13"] = dict(text=_PATHS + ": result = AllPaths (sample=1, u present at start), empty when u is absent at start, subset for sample<1, "
+                     "all_time_respecting_paths = union over the nodes present at min_t.",
+                     design="4 C12/C13", technique="TLC-enumerated graph domain replayed into the real algorithms; TLC validation against the declarative TLA+ path set")
+CHECKS["C15"] = dict(text=_PATHS + ": DAG edges are interactions inside the window with non-decreasing occurrence times (equal only out of a "
+                     "source), no cycle, sources = occurrences of u with a neighbour, targets are reached occurrences of v, all inside the "
+                     "DAG; ValueError for invalid windows; empty DAG without snapshots.",
+                     design="4 C15", technique="TLC-enumerated graph domain replayed into the real algorithms; TLC validation with TLA+ DAG clauses")
+CHECKS["C14"] = dict(
+    text="spec/Annotate.tla defines the five optimum sets declaratively; TLC proves the single-pass model (running minima with tie "
+         "lists, then the two second-level minima) equal to them for every list of length <= 4 (5 thorough) over a pool of 8 paths "
+         "with ties in every criterion, duplicates and every order, and dumps the lists; each is fed to the real annotate_paths / "
+         "path_length / path_duration and judged by TLC.",
+    design="4 C14", technique="TLC-enumerated input domain replayed into the real function; TLC validation against declarative TLA+ optimum sets")
+
 NOT_YET = {}
 
 TITLES = {}
